@@ -527,6 +527,18 @@ def repeat(a, reps, axis=None):
     if not anysym(a, reps):
         return _np.repeat(a, reps, axis=axis)
     a = _arr(a)
+    if axis is not None and a.ndim >= 1:
+        ax = axis + a.ndim if axis < 0 else axis
+        if dim_const(a.shape[ax]) == 1:
+            # repeating the single entry of an axis r times: r copies of it along that axis
+            rt = to_term(reps)
+            if not Ctx.cur.branch(rt >= 0):
+                raise ValueError("repeats may not contain negative values.")
+            old = a._elem
+            c = const_value(rt)
+            shp = a.shape[:ax] + ((c if isinstance(c, int) else SNum(rt)),) + a.shape[ax + 1:]
+            Ctx.cur.trust("numpy:repeat of an axis of extent 1 (r copies)")
+            return SArr(shp, lambda *i: old(*i[:ax], z3.IntVal(0), *i[ax + 1:]), a.kind)
     if a.ndim != 1 or axis is not None:
         raise Unsupported("repeat of rank != 1")
     rt = to_term(reps)
@@ -1060,6 +1072,11 @@ def nonzero(a):
     ctx = Ctx.cur
     ae = a._elem if a.kind == "b" else (lambda i, j, _e=a._elem: _e(i, j) != 0)
     n1, n2 = dim_term(a.shape[0]), dim_term(a.shape[1])
+    # the enumeration is a function of the array: asking twice for the non-zero cells of the same cells gives the same order
+    ck = (z3.simplify(n1).sexpr(), z3.simplify(n2).sexpr(), _alpha_key(z3.simplify(ae(z3.Int("nzkey?i"), z3.Int("nzkey?j")))))
+    cache = ctx.ghost.setdefault("nonzero_cache", {})
+    if ck in cache:
+        return cache[ck]
     m = ctx.fresh_int("nnz", lo=0, size=True)
     I = z3.IntSort()
     p1, p2 = ctx.fresh_fn("nz_row", I, I), ctx.fresh_fn("nz_col", I, I)
@@ -1076,7 +1093,64 @@ def nonzero(a):
     for r, n in ((r1, a.shape[0]), (r2, a.shape[1])):
         r.meta["values_in"] = (0, n)
         r.meta["nonzero"] = (a, m, p1, p2, rank)
+    cache[ck] = (r1, r2)
     return r1, r2
+
+
+def _alpha_key(e):
+    """textual key of a term that does not depend on the names of its *bound* variables (they carry a running number)"""
+    names, seen = [], set()
+
+    def rec(x):
+        if x.get_id() in seen:
+            return
+        seen.add(x.get_id())
+        if z3.is_quantifier(x):
+            for k in range(x.num_vars()):
+                if x.var_name(k) not in names:
+                    names.append(x.var_name(k))
+            rec(x.body())
+        elif z3.is_app(x):
+            for c in x.children():
+                rec(c)
+    rec(e)
+    txt = e.sexpr()
+    for k, nm in enumerate(sorted(names, key=lambda n: txt.find(n))):
+        txt = txt.replace(nm, f"bound#{k}")
+    return txt
+
+
+def argwhere(a):
+    """ASSUMED (2-d): the (m, 2) array of the index pairs of the non-zero cells - the columns are np.nonzero(a)"""
+    if not _sym(a):
+        return _np.argwhere(a)
+    r1, r2 = nonzero(a)
+    return column_stack([r1, r2])
+
+
+def diagonal(a, offset=0, axis1=0, axis2=1):
+    """ASSUMED: the diagonal over (axis1, axis2) becomes the last axis: 2-d a[i, i]; 3-d with axes (1, 2): out[b, i] = a[b, i, i]"""
+    if not _sym(a):
+        return _np.diagonal(a, offset=offset, axis1=axis1, axis2=axis2)
+    A = _arr(a)
+    if offset != 0:
+        raise Unsupported("diagonal with an offset")
+    ax1, ax2 = (axis1 + A.ndim if axis1 < 0 else axis1), (axis2 + A.ndim if axis2 < 0 else axis2)
+    old = A._elem
+    Ctx.cur.trust("numpy:diagonal (diagonal axis last)")
+    if A.ndim == 2 and {ax1, ax2} == {0, 1}:
+        n = A.shape[0] if Ctx.cur.branch(dim_term(A.shape[0]) <= dim_term(A.shape[1])) else A.shape[1]
+        return SArr((n,), lambda i: old(i, i), A.kind)
+    if A.ndim == 3 and {ax1, ax2} == {1, 2}:
+        n = A.shape[1] if Ctx.cur.branch(dim_term(A.shape[1]) <= dim_term(A.shape[2])) else A.shape[2]
+        return SArr((A.shape[0], n), lambda b, i: old(b, i, i), A.kind)
+    raise Unsupported(f"diagonal of rank {A.ndim} over axes ({axis1}, {axis2})")
+
+
+def mod(a, b):
+    if not anysym(a, b):
+        return _np.mod(a, b)
+    return _arr(a) % b
 
 
 def moveaxis(a, s, d):
@@ -1085,7 +1159,12 @@ def moveaxis(a, s, d):
     a = _arr(a)
     if a.ndim == 2 and s == 0 and d in (-1, 1):
         return a.T
-    raise Unsupported("np.moveaxis other than (2-d, 0, -1)")
+    old = a._elem
+    if a.ndim == 3 and s == 0 and d in (-1, 2):
+        return SArr((a.shape[1], a.shape[2], a.shape[0]), lambda i, j, b: old(b, i, j), a.kind, dtype_name=a.dtype_name)
+    if a.ndim == 3 and s in (-1, 2) and d == 0:
+        return SArr((a.shape[2], a.shape[0], a.shape[1]), lambda b, i, j: old(i, j, b), a.kind, dtype_name=a.dtype_name)
+    raise Unsupported("np.moveaxis other than (2-d, 0, -1) / (3-d, 0 <-> -1)")
 
 
 def outer(a, b):
